@@ -60,12 +60,14 @@ def nextDecision (rng : List Nat) : Py (Nat × List Nat) :=
   | [] => throw PyErr.other          -- the recorded run made no further decision: histories differ
 
 /-- `random.choice(seq)`: IndexError on an empty sequence, else the recorded index (in range) -/
-def choose {α} (seq : List α) (rng : List Nat) : Py (α × List Nat) := do
-  if seq.isEmpty then throw PyErr.index
-  let (i, rest) ← nextDecision rng
-  match seq[i]? with
-  | some x => pure (x, rest)
-  | none => throw PyErr.other
+def choose {α} (seq : List α) (rng : List Nat) : Py (α × List Nat) :=
+  if seq.isEmpty then .error .index
+  else match rng with
+    | [] => .error .other              -- the recorded run made no further decision: histories differ
+    | i :: rest =>
+      match seq[i]? with
+      | some x => .ok (x, rest)
+      | none => .error .other
 
 /-- sample.py:17 `_select_bonding_operator`: weighted choice when a non-empty table is given (missing
     keys weigh 0; the chosen entry must have non-zero weight), uniform choice otherwise -/
@@ -73,14 +75,14 @@ def select (bonds : List Desc) (probs : Option React) (rng : List Nat) : Py (Des
   match probs with
   | some tbl =>
     if tbl.isEmpty then choose bonds rng
-    else do
-      let w := bonds.map fun b => (tbl.lookup b).getD false
-      if bonds.isEmpty then throw PyErr.index
-      if !w.any id then throw PyErr.value
-      let (i, rest) ← nextDecision rng
-      match bonds[i]?, w[i]? with
-      | some b, some true => pure (b, rest)
-      | _, _ => throw PyErr.other
+    else if bonds.isEmpty then .error .index
+    else if !(bonds.map fun b => (tbl.lookup b).getD false).any id then .error .value
+    else match rng with
+      | [] => .error .other
+      | i :: rest =>
+        match bonds[i]?, (bonds.map fun b => (tbl.lookup b).getD false)[i]? with
+        | some b, some true => .ok (b, rest)
+        | _, _ => .error .other
   | none => choose bonds rng
 
 /-- graph_utils.merge_graphs as the sampler uses it: running fragment index -/
@@ -105,6 +107,18 @@ structure GrowOut where
   source : Key
   target : Key
 
+/-- sample.py:286-316: merge the chosen fragment, make the one bond, consume both descriptors, handle
+    terminals — everything in `add_fragment` after the four choices -/
+def attach (cfg : SamplerCfg) (mol : Mol) (bonding partner : Desc) (source tnode : Key) (tmpl : Mol) (o : Nat) : Mol × Key :=
+  let (mol1, corr) := mergeRunning mol tmpl
+  let target := (corr.lookup tnode).getD tnode
+  let mol2 := mol1.addEdge ⟨source, target, 2 * o, some (bonding, partner)⟩
+  let mol3 := (mol2.updAtom source fun a => { a with bonding := a.bonding.erase bonding }).updAtom target
+    fun a => { a with bonding := a.bonding.erase partner }
+  let mol4 := if cfg.terminals.contains partner then mol3.updAtom source fun a => { a with bonding := [] }
+    else mol3.updAtom source fun a => { a with bonding := a.bonding.filter fun b => !cfg.terminals.contains b }
+  (mol4, target)
+
 /-- sample.py:247 `add_fragment`; consumes up to four decisions -/
 def addFragment (cfg : SamplerCfg) (mol : Mol) (rng : List Nat) : Py (GrowOut × List Nat) := do
   let ob := openBonds mol
@@ -115,14 +129,8 @@ def addFragment (cfg : SamplerCfg) (mol : Mol) (rng : List Nat) : Py (GrowOut ×
   let (partner, rng) ← select compl (cfg.fragReact.lookup bonding) rng
   let ((fragname, tnode), rng) ← choose ((fb.lookup partner).getD []) rng
   let tmpl ← pyGet cfg.frags fragname
-  let (mol1, corr) := mergeRunning mol tmpl
-  let target := (corr.lookup tnode).getD tnode
   let o ← descOrder bonding
-  let mol2 := mol1.addEdge ⟨source, target, 2 * o, some (bonding, partner)⟩
-  let mol3 := (mol2.updAtom source fun a => { a with bonding := a.bonding.erase bonding }).updAtom target
-    fun a => { a with bonding := a.bonding.erase partner }
-  let mol4 := if cfg.terminals.contains partner then mol3.updAtom source fun a => { a with bonding := [] }
-    else mol3.updAtom source fun a => { a with bonding := a.bonding.filter fun b => !cfg.terminals.contains b }
+  let (mol4, target) := attach cfg mol bonding partner source tnode tmpl o
   pure (⟨mol4, fragname, bonding, partner, source, target⟩, rng)
 
 /-- exact rational comparison `a < b` for a = n/d -/
